@@ -51,7 +51,8 @@ class Ctx:
         self.outdir = os.path.join(VERIF, "out", pid)
         self.alt_repo = REPO != "/repo"
         if self.alt_repo:
-            self.outdir = os.path.join("/tmp", "verif-out", pid)
+            # (VERIF_OUT: several scratch-worktree runs of the same property at the same time)
+            self.outdir = os.environ.get("VERIF_OUT") or os.path.join("/tmp", "verif-out", pid)
         self.known = load_known(pid)
         self._nviol = 0
         self.replay_mode = False
